@@ -191,6 +191,7 @@ def _evidence(mod, ctx, lean, outcome, known_lines, wall):
         "known_findings_reported": known_lines,
         "outcome": outcome,
         "static_tie_unavailable": lean.get("static_tie_unavailable", []),
+        "source_pin": lean.get("source_pin"),
         "notes": ctx.notes,
     }
     ev = {
@@ -238,17 +239,17 @@ def run_property(prop, tier, seed):
     known = load_known()
     open_sigs = {k["signature"]: k for k in known.get("open", []) if k["property"] == prop}
 
-    # 1. translator tie (optional): regenerate Lean facts from the current sources
+    # 1. translator tie (optional): regenerate Lean facts from the current sources; 2. proofs.  One lock around both, so
+    # that the files built are the ones generated from THIS run's copy of the repository.
     gen_info = {}
-    if hasattr(mod, "generate"):
-        try:
-            gen_info = mod.generate(ctx) or {}
-        except Exception as e:  # a translator that cannot parse the new code shape is not a violation by itself
-            gen_info = {"error": f"{type(e).__name__}: {e}"}
-            ctx.note("translator failed: " + gen_info["error"])
-
-    # 2. proofs
-    lean = leanio.lean_stage(mod.LEAN_MODULE, tier, extra_build=gen_info.get("build", ()))
+    with leanio.GenLock():
+        if hasattr(mod, "generate"):
+            try:
+                gen_info = mod.generate(ctx) or {}
+            except Exception as e:  # a translator that cannot parse the new code shape is not a violation by itself
+                gen_info = {"error": f"{type(e).__name__}: {e}"}
+                ctx.note("translator failed: " + gen_info["error"])
+        lean = leanio.lean_stage(mod.LEAN_MODULE, tier, extra_build=gen_info.get("build", ()))
     lean["generated_obligations"] = gen_info.get("obligations", 0) if lean.get("built") else 0
     if gen_info.get("error"):
         lean.setdefault("undischarged", []).append("translator: " + gen_info["error"])
@@ -262,6 +263,22 @@ def run_property(prop, tier, seed):
         ctx.scale = 10
 
     lean["static_tie_unavailable"] = unavailable
+
+    # Source pins (harness/pins.py): when the files this property is anchored in (or what they import from the library)
+    # differ from the revision the model was last validated against, the correspondence is run at a larger budget.
+    # Not a violation, not a broken tie - a deeper re-validation exactly when the code has changed.
+    try:
+        from . import pins
+        from .shim import REPO as _repo
+        changed, pinned_rev = pins.changed_for(prop, _repo)
+    except Exception as e:  # noqa
+        changed, pinned_rev = [], None
+        ctx.note(f"source pins unavailable: {type(e).__name__}: {e}")
+    lean["source_pin"] = {"validated_revision": pinned_rev, "changed_files": changed}
+    if changed and tier == "quick":
+        ctx.note(f"source differs from the validated revision {str(pinned_rev)[:10]} in {', '.join(changed)[:300]}: "
+                 f"correspondence budget x{pins.CHANGED_SCALE}")
+        ctx.scale = max(ctx.scale, pins.CHANGED_SCALE)
 
     # 3. correspondence + direct checks
     infra_error = None
